@@ -6,7 +6,7 @@ import random
 
 from .. import tlc
 from ..core import Ctx, Outcome, Violation
-from ..zygote import FAMILY_NAMES, Zygote
+from ..zygote import FAMILY_NAMES, ExecZygote, Zygote
 
 
 def abstract_histories(maxops):
@@ -42,6 +42,22 @@ def run(ctx: Ctx) -> Outcome:
                         raise tlc.MachineryError(f"cold run failed: {fam} {eq} {d}: {r['error']}")
                     cold[(fam, eq, d)] = r
         events, meta = [], []
+        # the same cold calls in interpreters started with other string-hash seeds: same outcomes
+        for hs in ((1, 2) if ctx.quick else (1, 2, 3, 5)):
+            ez = ExecZygote(hs)
+            try:
+                for fam in FAMILY_NAMES:
+                    for eq in (1, 2):
+                        for d in (1, 2):
+                            r = ez.ask({"kind": "cold", "fam": fam, "eq": eq, "d": d})
+                            if "error" in r:
+                                raise tlc.MachineryError(f"cold run (hash seed {hs}) failed: {fam} {eq} {d}: {r['error']}")
+                            events.append({"warm": r["cold"], "cold": cold[(fam, eq, d)]["cold"], "input_intact": True, "earlier_intact": True,
+                                           "results_disjoint": True, "result_independent_of_input": True})
+                            meta.append({"family": fam, "history": [{"op": f"cold call under PYTHONHASHSEED={hs}", "eq": eq, "d": d, "target": 0}],
+                                         "at": 0, "eq": eq, "d": d})
+            finally:
+                ez.close()
         per_family = 170 if ctx.quick else 100000
         # one more zygote per worker thread (each forked from this still-clean process); families are spread over them
         import threading
